@@ -9,6 +9,7 @@ TRUSTED = [
     'hand-written models coq/Model/Buffer.v, coq/Model/FifoStream.v (SingleLane as an atomic bounded FIFO; thread pool = FIFO work queue + conc workers)',
     'trace validation: the real Buffer / fifo_stream / Parmapper run under harness/detsched.py (real threads, one at a time) with virtual Lock/Condition/Event/Future injected into mpservice module globals; each logged run is replayed in the model',
     'virtual primitives follow CPython semantics (harness/vprims.py; Future = stdlib source re-executed over them)',
+    __import__('harness.scen_lane', fromlist=['LANE_TRUSTED']).LANE_TRUSTED,
 ]
 ASSUME = [
     'code between two logged shared-object operations touches only thread-local state',
@@ -66,6 +67,7 @@ def parts():
         core.Part('fifo', 'harness.scen_stream', 'fifo', 300, 5000, 'DriverFifo', ss.coq_fifo_case,
                   bound_oracle_fifo, lambda r: r['ahead_max'] >= r['cfg']['cap'] + 2 or r['running_max'] >= 2,
                   extra_args=['greedy']),
+        __import__('harness.scen_lane', fromlist=['part']).part(120, 2000),
     ]
 
 
